@@ -565,6 +565,73 @@ def rw_chars_rev(tl):
     return out, cnt
 
 
+def rw_optlib(tl):
+    """R13: library idioms of `optimize` replaced by calls of trusted helpers with sequence / map level specs
+    (each helper is an external_body stub listed in the evidence):
+       M.entry(K).or_insert(V)                          => hm_entry_or_insert(&mut M, K, V)
+       V.sort_unstable()                                => vec_sort_unstable(&mut V)
+       io::CustomWriter::new(|_| Result::Ok(()))        => custom_writer_null()
+       &mut stdin()                                     => &mut io_stdin()
+       V[I..].to_vec()                                  => vec_suffix_to_vec(&V, I)
+       R.extend(S.chars().map(|x| Num::from_num(x as isize)))  => vec_extend_chars_num(R, S)
+       for (I, X) in V.iter().enumerate() { B }         => let mut I__k: usize = 0; while I__k < V.len() {
+                                                               let I = I__k; let X = &V[I__k]; I__k += 1; B }"""
+    tl, cnt = rw_patterns(tl, [
+        ("$I.sort_unstable()", "vec_sort_unstable(&mut $I)"),
+        ("io::CustomWriter::new(|_| Result::Ok(()))", "custom_writer_null()"),
+        ("&mut stdin()", "&mut io_stdin()"),
+        ("$I[$I2..].to_vec()", "vec_suffix_to_vec(&$I, $I2)"),
+    ])
+    out = []
+    i = 0
+    n = len(tl)
+    while i < n:
+        # M.entry(K).or_insert(V)
+        if i + 3 < n and tl[i + 1:i + 4] == [".", "entry", "("] and (tl[i][0].isalpha() or tl[i][0] == "_"):
+            j = _close(tl, i + 3)
+            if tl[j + 1:j + 4] == [".", "or_insert", "("]:
+                k = _close(tl, j + 3)
+                out += ["hm_entry_or_insert", "(", "&", "mut", tl[i], ","] + tl[i + 4:j] + [","] + tl[j + 4:k] + [")"]
+                i = k + 1
+                cnt += 1
+                continue
+        # for (I, X) in V.iter().enumerate() {
+        if tl[i] == "for" and tl[i + 1] == "(" and tl[i + 3] == "," and tl[i + 5:i + 7] == [")", "in"] and \
+                tl[i + 8:i + 16] == [".", "iter", "(", ")", ".", "enumerate", "(", ")"] and tl[i + 16] == "{":
+            iv, xv, vec = tl[i + 2], tl[i + 4], tl[i + 7]
+            k = iv + "__k"
+            out += T("let mut %s: usize = 0; while %s < %s.len() { let %s = %s; let %s = &%s[%s]; %s += 1;" % (k, k, vec, iv, k, xv, vec, k, k))
+            i += 17
+            cnt += 1
+            continue
+        # R.extend(S.chars().map(|x| Num::from_num(x as isize)))
+        if tl[i:i + 3] == [".", "extend", "("]:
+            j = _close(tl, i + 2)
+            inner = tl[i + 3:j]
+            tail = T(".chars().map(|x| Num::from_num(x as isize))")
+            if len(inner) > len(tail) and inner[-len(tail):] == tail:
+                # receiver: back to the start of the statement
+                b = len(out)
+                d = 0
+                while b > 0:
+                    t = out[b - 1]
+                    if t in (")", "]"):
+                        d += 1
+                    elif t in ("(", "["):
+                        d -= 1
+                    if d == 0 and t in (";", "{", "}"):
+                        break
+                    b -= 1
+                recv = out[b:]
+                out = out[:b] + ["vec_extend_chars_num", "("] + recv + [","] + inner[:-len(tail)] + [")"]
+                i = j + 1
+                cnt += 1
+                continue
+        out.append(tl[i])
+        i += 1
+    return out, cnt
+
+
 def rw_closure_call(tl, callee, newname, extra_args):
     """R11: `PATH :: callee ( A , B , | | BODY )` => `newname ( A , B , extra_args )`; returns also BODY tokens."""
     out = []
